@@ -10,6 +10,16 @@ NOTE = ("Trusted: Coq 8.16.1 kernel + vm_compute; no axioms (Print Assumptions c
         "its ExtrOcamlBasic extraction vs the implementation built from the working tree); Rust harness, python generators.")
 
 CHECKS = {
+    "C18": dict(
+        category="proof",
+        text="Theorems for all message sequences (Props/C18.v): the phase machine transcribed from server.rs produces exactly the "
+             "responses (ids, order, result/error codes) and the exit status that the lifecycle specification (Spec/Session.v, "
+             "stated over the message history) prescribes, and always ends in an exited state. The model is tied to the built "
+             "binary by running every session up to the bound (and byte prefixes followed by end-of-input) in fresh server "
+             "processes and comparing response stream and exit status with the model (extracted judge + coqc VM judge). "
+             "Process liveness, exit-status plumbing and time-to-exit are observed, not proved.",
+        design_ref="DESIGN.md section 5, C18",
+        technique="Coq proof (refinement of a history-based spec by the phase machine) + exhaustive small-scope correspondence against the binary"),
     "C07": dict(
         category="other",
         text="Model LexUpdate.lex_update transcribes lexer::update (every panic site explicit). Proved so far: the bounded instance "
